@@ -23,6 +23,7 @@ type C01Plan struct {
 	After    [][]world.Key `json:"after"`  // ... and listed after the matching one
 	Delivery seam.Delivery `json:"delivery"`
 	Reads    lib.ReadSched `json:"reads"`
+	Via      int           `json:"via,omitempty"` // 0: keys through the constructors; 1..3: through the text parsers (key files with comments / CRLF / no final newline, authorized_keys lines, PEM)
 }
 
 type C01 struct{}
@@ -42,10 +43,10 @@ func (C01) Meta() core.Meta {
 		Level: "exploration",
 		Rule: "a case = (recipient list of 1..6 from {X25519, ssh-ed25519, ssh-rsa, grease recipient emitting 0..2 unknown stanzas} in any order with duplicates, or one scrypt recipient; plaintext length in {0,1, k*64KiB-1..+1 for k<=4, random}; armor on/off; write segmentation; for every listed recipient an identity list with its identity at a random position among 0..5 non-matching identities of all four types; delivery and read schedules), no fault injected. Oracle: plaintext exact, clean and sticky EOF, Unwrap trace = identities up to and including the first that opens, none after. Non-trivial = more than one stanza or a non-matching identity in front or a chunk-boundary length; distinct = distinct (file skeleton, identity lists).",
 		Assumptions: []string{"seeded sampling only: no fault or schedule appears in C01; it is the fault-free configuration against which the safety engines are meaningful"},
-		Real:        []string{"filippo.io/age Encrypt/Decrypt", "X25519/scrypt/ssh-ed25519/ssh-rsa recipients and identities", "armor", "internal/stream", "internal/format"},
+		Real:        []string{"filippo.io/age Encrypt/Decrypt", "X25519/scrypt/ssh-ed25519/ssh-rsa recipients and identities", "armor", "internal/stream", "internal/format", "age.ParseRecipients / ParseIdentities, agessh.ParseRecipient / ParseIdentity (a third of the runs)"},
 		Stub:        []string{"destination recorder", "source with delivery schedule", "grease recipient", "logging identity wrapper", "crypto/rand.Reader (tape)"},
 		FaultKinds:  []string{},
-		Probes:      []string{"probe.mixed_types", "probe.duplicate_recipient", "probe.grease_stanza", "probe.scrypt", "probe.rsa", "probe.armor", "probe.len_on_chunk_boundary", "probe.nonmatching_before", "probe.nonmatching_after", "probe.multi_chunk"},
+		Probes:      []string{"probe.mixed_types", "probe.duplicate_recipient", "probe.grease_stanza", "probe.scrypt", "probe.rsa", "probe.armor", "probe.len_on_chunk_boundary", "probe.nonmatching_before", "probe.nonmatching_after", "probe.multi_chunk", "probe.keys_through_text_parsers"},
 	}
 }
 
@@ -91,6 +92,9 @@ func (C01) Generate(r *core.RNG, tier string, idx uint64) interface{} {
 		p.Before = append(p.Before, genOutsiders(r, keys, r.Intn(4)))
 		p.After = append(p.After, genOutsiders(r, keys, r.Intn(3)))
 	}
+	if r.Chance(1, 3) {
+		p.Via = r.Range(1, 3)
+	}
 	return p
 }
 
@@ -108,6 +112,11 @@ func (C01) Shrinks(plan interface{}) []interface{} {
 			q.After = append(q.After, append([]world.Key(nil), p.After[i]...))
 		}
 		return &q
+	}
+	if p.Via != 0 {
+		q := cp()
+		q.Via = 0
+		out = append(out, q)
 	}
 	// drop a recipient (and its identity lists)
 	if len(p.File.Recips) > 1 {
@@ -171,7 +180,22 @@ func (C01) Shrinks(plan interface{}) []interface{} {
 func (e C01) Execute(plan interface{}, c *core.Ctx) *core.Verdict {
 	p := plan.(*C01Plan)
 	d := seam.NewDisk(nil, nil)
-	res := lib.Encrypt(p.File, p.Segs, d, seam.NewTape(p.File.Tape), nil)
+	var res *lib.EncResult
+	if p.Via > 0 {
+		// recipients and identities come out of the text parsers (key files, authorized_keys lines, PEM)
+		var recips []age.Recipient
+		for _, r := range p.File.Recips {
+			if r.Key != nil {
+				recips = append(recips, world.RecipientVia(*r.Key, p.Via))
+			} else {
+				recips = append(recips, lib.BuildRecipients([]lib.Recip{r})[0])
+			}
+		}
+		c.Stats.Inc("probe.keys_through_text_parsers")
+		res = lib.EncryptWith(recips, p.File, p.Segs, d, seam.NewTape(p.File.Tape), nil)
+	} else {
+		res = lib.Encrypt(p.File, p.Segs, d, seam.NewTape(p.File.Tape), nil)
+	}
 	if res.AnyErr() {
 		return core.Fail("C01.encrypt", "encrypting to %s failed: %+v", p.File.Skeleton(), res)
 	}
@@ -221,7 +245,7 @@ func (e C01) Execute(plan interface{}, c *core.Ctx) *core.Verdict {
 		var ids []age.Identity
 		var want []string
 		add := func(kk world.Key, name string) {
-			ids = append(ids, &world.LoggingIdentity{Inner: world.Identity(kk), Name: name, Trace: &trace})
+			ids = append(ids, &world.LoggingIdentity{Inner: world.IdentityVia(kk, p.Via), Name: name, Trace: &trace})
 		}
 		var before, after []world.Key
 		if i < len(p.Before) {
